@@ -247,24 +247,23 @@ def Mon.obs (m : Mon) (o : Obs) : Except String Mon :=
       .ok { m with s := s', expectB := m.expectB ++ out }
   | .appB i =>
     match removeFirst (matchesOut · (.appB i)) m.expectB with
-    | some rest => .ok { m with expectB := rest }
     | none => .error s!"B's application received {i} without a delivery in the model"
+    | some rest =>
+      -- the application acknowledges at once: the acknowledgement takes its counter now, it reaches
+      -- the wire (through the transmit slot) possibly after a duplicate's direct acknowledgement
+      match step m.s .ackB with
+      | none => .error "B's application acknowledges although the model owes no acknowledgement"
+      | some s' =>
+        match s'.net.head? with
+        | some (.ack bc k) => .ok { m with s := s', expectB := rest ++ [Obs.txB bc k .pass] }
+        | _ => .error "the model's acknowledgement step produced no acknowledgement"
   | .txB c k f =>
     match removeFirst (matchesOut · (.txB c k f)) m.expectB with
     | some rest =>
       match applyFate m.s (.ack c k) f with
       | some s' => .ok { m with s := s', expectB := rest }
       | none => .error "acknowledgement not in the model's network"
-    | none =>
-      -- the application's acknowledgement
-      match step m.s .ackB with
-      | none => .error s!"B sent ack {c} {k} although the model owes no acknowledgement"
-      | some s' =>
-        if s'.net.head? != some (Dg.ack c k) then .error s!"the model acknowledges {repr s'.net.head?}, observed ack {c} {k}"
-        else
-          match applyFate s' (.ack c k) f with
-          | some s'' => .ok { m with s := s'' }
-          | none => .error "acknowledgement not in the model's network"
+    | none => .error s!"B sent ack {c} {k} which the model does not produce (expected {repr m.expectB})"
   | .rxA bc k =>
     match step m.s (.deliver (.ack bc k)) with
     | none => .error s!"A received ack {bc} {k} which is not in flight in the model"
@@ -297,9 +296,11 @@ def acceptsTrace (s0 : Sys) (os : List Obs) : Except String Sys :=
   match ({ s := s0 } : Mon).runObs os with
   | .ok m =>
     if !m.expectA.isEmpty then .error s!"the run ended while the model still expects {repr m.expectA.head?}"
-    else match m.expectB.find? (fun o => match o with | .appB _ => true | _ => false) with
-      | some o => .error s!"the run ended while the model still expects {repr o}"
-      | none => .ok m.s
+    else match m.expectB.head? with
+      | some o => .error s!"the run ended while the model still expects {repr o} (a received message was not handed on / not acknowledged)"
+      | none =>
+        if m.s.bMrp.isAckPending then .error "the run ended while the receiver still owes an acknowledgement"
+        else .ok m.s
   | .error e => .error e
 
 end TwoNode
